@@ -22,8 +22,8 @@ theorem put_logs_before_memstore :
     allBefore .walAppend .memUpsert p = true ∧ allBefore .walAppendSync .memUpsert p = true ∧
     allBefore .walAppend .memDelete d = true ∧ allBefore .walAppendSync .memDelete d = true ∧
     count .memUpsert p = 1 ∧ count .memDelete d = 1 ∧
-    condsAround .walAppend [] p = [["db.enableAsyncWAL"]] ∧ condsAround .walAppendSync [] p = [["else: db.enableAsyncWAL"]] ∧
-    condsAround .walAppend [] d = [["db.enableAsyncWAL"]] ∧ condsAround .walAppendSync [] d = [["else: db.enableAsyncWAL"]] := by
+    condsAround .walAppend [] p = [["simpledb.DB.enableAsyncWAL"]] ∧ condsAround .walAppendSync [] p = [["else: simpledb.DB.enableAsyncWAL"]] ∧
+    condsAround .walAppend [] d = [["simpledb.DB.enableAsyncWAL"]] ∧ condsAround .walAppendSync [] d = [["else: simpledb.DB.enableAsyncWAL"]] := by
   decide +kernel
 
 /-- C13-m2: the accepted write reaches the memstore BEFORE a size-triggered rotation hands that store over — so the
@@ -31,8 +31,12 @@ record and its WAL file travel together; the upsert itself is unconditional, the
 theorem put_memstore_before_rotate :
     let p := itemsOf "DB.PutBytes"
     inOrder [.lock, .memUpsert, .memSizeEstimate, .rotateAndHandOff] p = true ∧
-    condsAround .memUpsert [] p = [[]] ∧
-    condsAround .rotateAndHandOff [] p = [["db.memStore.EstimatedSizeInBytes() > db.memstoreMaxSize"]] ∧
+    -- the upsert: reached once the two state guards are passed, under no other condition; the rotation: once, in addition,
+    -- the guard "estimated size within the limit → return" is passed (normal form of `if size > max { return rotate() }`)
+    pathConds .memUpsert p = [["not: simpledb.DB.closed", "not: !simpledb.DB.open"]] ∧
+    pathConds .rotateAndHandOff p =
+      [["not: simpledb.DB.memstoreMaxSize >= simpledb.DB.memStore.EstimatedSizeInBytes()", "not: simpledb.DB.closed",
+        "not: !simpledb.DB.open"]] ∧
     lastAmong .rotateAndHandOff [.walAppend, .walAppendSync, .memUpsert, .memDelete] p = true ∧
     noOther p = true ∧ noOther (itemsOf "DB.DeleteBytes") = true := by decide +kernel
 
@@ -59,7 +63,7 @@ theorem rotate_closes_before_creating_next :
     acts (itemsOf "wal.setupNextWriter") = [.walWriterFactory, .openWalWriter, .closeFailedWalWriter] ∧
     unconditional .walWriterFactory (itemsOf "wal.setupNextWriter") = true ∧
     unconditional .openWalWriter (itemsOf "wal.setupNextWriter") = true ∧
-    condsAround .closeFailedWalWriter [] (itemsOf "wal.setupNextWriter") = [["err != nil"]] ∧
+    condsAround .closeFailedWalWriter [] (itemsOf "wal.setupNextWriter") = [["errNonNil"]] ∧
     noOther (itemsOf "wal.setupNextWriter") = true := by decide +kernel
 
 /-- the appenders check the size limit first (SimpleDB sets it to MaxUint64: no rotation of its own), then write -/
